@@ -391,6 +391,12 @@ def run(res, args):
         rep, info = c08_palette.replay(ob, d)
         return rep, info, {'site': 'make_palette_properties'}
     O.merge(res, [c08_palette.obligation(fns, consts)], res.coverage, replay_pal, 'palette builder')
+    from . import c08_bodies
+
+    def replay_bod(ob, d):
+        rep, info = c08_bodies.replay(ob, d)
+        return rep, info, {'site': 'PropertyCodeBodies::next'}
+    O.merge(res, [c08_bodies.obligation(fns, consts)], res.coverage, replay_bod, 'code body iterator')
     res.assumptions += [
         'C08 engine C: calls other than the iterator plumbing are uninterpreted and deterministic functions of their arguments; sorted_by_key sorts by a total order on keys, and the keys of one container are pairwise distinct',
         'Outside the claim: hash containers consumed by map/collect/find/any (listed per function as inconclusive if they appear on a path to the output), the order of diagnostics, process-to-process state, "rewritten only when bytes differ" (file system)',
